@@ -31,7 +31,8 @@ INLINE = ["text", "code", "inline_html", "html", "softbreak", "hardbreak", "link
 LINTED_BLOCKS = ("Paragraph", "Heading", "Item")
 
 
-def run(mir_path, T, K, src_dir, md_src):
+def run(mir_path, T, K, src_dir, md_src, inline=None):
+    INLINE = inline or globals()["INLINE"]
     raw = load_functions(mir_path)
     enums = load_enums(src_dir)
     md_enums = load_enums(md_src)
@@ -78,6 +79,8 @@ def run(mir_path, T, K, src_dir, md_src):
             if kind in ("link", "code"):
                 p, q = p + 1, q - 1
             d["x"] = "".join(chr(c) for c in cs[p:q])
+            if any(e[0] == "entity" for e in inl):
+                d["construct"] = "entity"
         return d
 
     def body(ctx):
@@ -137,6 +140,18 @@ def run(mir_path, T, K, src_dir, md_src):
                     expected.append((p, q, "Unlintable", i))
                 elif linted:
                     expected.append((p, q, "Word", i))
+            elif kind == "entity":
+                # an HTML entity (`&copy;`): at least three source characters, the event's text is ONE decoded character of
+                # any UTF-8 width (so the text's length differs from its source's, in chars and in bytes)
+                if q - p < 3:
+                    raise PathEnd()
+                dec = z3.BitVec(f"decoded{i}", 32)
+                ctx.assume(z3.And(z3.ULE(dec, 0x10FFFF), z3.Or(z3.ULT(dec, 0xD800), z3.UGT(dec, 0xDFFF)), dec != 0))
+                events.append(Tup([ev("Text", StringObj([Int(dec, 32)])), brange(p, q)]))
+                if block == "CodeBlock":
+                    expected.append((p, q, "Unlintable", i, "loose"))
+                elif linted:
+                    expected.append((p, q, "Word", i, "loose"))
             elif kind == "code":
                 if q - p < 2:
                     raise PathEnd()
@@ -234,9 +249,11 @@ def run(mir_path, T, K, src_dir, md_src):
             claims.append((z3.And(pb.fields[0].fields[0].t == pb.fields[0].fields[1].t, z3.ULE(pb.fields[0].fields[1].t, T)),
                            "the closing paragraph break is not a zero-width token inside the text"))
             claims.append((chars[T - 1] == 10, "a trailing paragraph break was kept although the text does not end in a line feed"))
-        want_seen = [(a, b) for a, b, k, _i in expected if k == "Word"]
-        if seen != want_seen:
-            claims.append((z3.BoolVal(False), f"the plain-English parser was handed the slices {seen}, the text events cover {want_seen}"))
+        want_seen = [e_ for e_ in expected if e_[2] == "Word"]
+        same_seen = len(seen) == len(want_seen) and all(
+            (e_[0] <= lo_ and hi_ <= e_[1]) if len(e_) > 4 else (lo_, hi_) == (e_[0], e_[1]) for (lo_, hi_), e_ in zip(seen, want_seen))
+        if not same_seen:
+            claims.append((z3.BoolVal(False), f"the plain-English parser was handed the slices {seen}, the text events cover {[e_[:2] for e_ in want_seen]}"))
         if len(content) != len(expected):
             # the last expected token may legitimately have been popped (a Newline at the very end)
             if len(content) == len(expected) - 1 and expected and expected[-1][2] == "Newline":
@@ -247,8 +264,14 @@ def run(mir_path, T, K, src_dir, md_src):
                 exp = []
         else:
             exp = expected
-        for t, (a, b, k, ei) in zip(content, exp):
+        for t, ex_ in zip(content, exp):
+            a, b, k, ei = ex_[:4]
             s_, e_ = t.fields[0].fields[0].t, t.fields[0].fields[1].t
+            if len(ex_) > 4:
+                # an entity: its token must lie inside the entity's source (where exactly is not prescribed)
+                claims.append((z3.And(z3.ULE(a, s_), z3.ULE(s_, e_), z3.ULE(e_, b)),
+                               f"the token for the entity over chars [{a}, {b}) does not lie inside the entity", ei))
+                continue
             claims.append((z3.And(s_ == a, e_ == b),
                            f"the {k} token for the event over chars [{a}, {b}) is not located on those characters", ei))
             if t.fields[1].variant != k:
@@ -278,7 +301,7 @@ def run(mir_path, T, K, src_dir, md_src):
 
 if __name__ == "__main__":
     try:
-        r = run(sys.argv[1], int(sys.argv[2]), int(sys.argv[3]), sys.argv[4], sys.argv[5])
+        r = run(sys.argv[1], int(sys.argv[2]), int(sys.argv[3]), sys.argv[4], sys.argv[5], sys.argv[6].split(",") if len(sys.argv) > 6 else None)
         r["status"] = "violated" if (r["violations"] or r["panics"]) else "holds"
     except Unsupported as e:
         r = {"status": "unsupported", "why": str(e)}
